@@ -80,6 +80,7 @@ FUNCS = {
     'mod150': lambda x: x % 150,
     'div10': lambda x: x // 10,
     'div100': lambda x: x // 100,
+    'div10_hash': lambda x: [-1, -2, 5, 5 + (2 ** 61 - 1)][x // 10 % 4],     # distinct keys, pairwise equal hashes
     'big_mod2': _big,
     'tup_mod2': lambda x: (x % 2, 'a'),
     'str_mod2': _strkey,
